@@ -236,7 +236,7 @@ package server
 
 //@ func (*LockManager).UpdateLockedLock
 //@   requires self != nil && lock != nil && command != nil && self.lockDb != nil
-//@   ensures C03.update.command,C19.update.command: lock.command == command && result == old(lock.command)
+//@   ensures C03.update.command,C19.update.command,C06.update.command,C05.update.command: lock.command == command && result == old(lock.command)
 //@   ensures C06.update.not-early: implies(command.ExpriedFlag&0x4000 == 0 && clockSane(self.lockDb), notEarly(lock.expriedTime, self.lockDb.currentTime, command.Expried, command.ExpriedFlag))
 //@   ensures C05.update.not-early: implies((command.ExpriedFlag&0x4000 == 0 || command.Expried < 0xffff) && clockSane(self.lockDb), notEarly(lock.timeoutTime, self.lockDb.currentTime, command.Timeout, command.TimeoutFlag))
 //@   ensures C06.update.restart: implies(command.ExpriedFlag&0x4000 == 0 || command.Expried < 0xffff, lock.startTime == self.lockDb.currentTime && lock.expriedTime == i64(expriedDeadline(self.lockDb.currentTime, command)) && lock.timeoutTime == i64(timeoutDeadline(self.lockDb.currentTime, command)))
@@ -393,6 +393,7 @@ package server
 
 //@ func (*LockDB).AddMillisecondTimeOut
 //@   requires self != nil && lock != nil && lock.manager != nil && lock.command != nil
+//@   requires C05.unit.ms: lock.command.TimeoutFlag&0x0400 != 0
 //@   ensures C05.armed.ms: !lock.timeouted
 //@   ensures otherLocksSame(lock) && lock.locked == old(lock.locked) && lock.refCount == old(lock.refCount) && lock.manager == old(lock.manager) && lock.command == old(lock.command) && lock.ackCount == old(lock.ackCount) && lock.expried == old(lock.expried) && lock.isAof == old(lock.isAof) && lock.protocol == old(lock.protocol)
 //@   modifies LockQueue.*, Lock.longWaitIndex@lock, Lock.timeouted@lock, MillisecondWaitLockFreeQueue.freeIndex, E_LJPserver_Lock, E_Pserver_Lock, E_Pserver_MillisecondWaitLockQueue, E_int32
@@ -410,6 +411,7 @@ package server
 
 //@ func (*LockDB).AddMillisecondExpried
 //@   requires self != nil && lock != nil && lock.manager != nil && lock.command != nil && lock.manager.lockDb != nil
+//@   requires C06.unit.ms: lock.command.ExpriedFlag&0x0400 != 0
 //@   ensures C06.armed.ms: !lock.expried
 //@   ensures otherLocksSame(lock) && lock.locked == old(lock.locked) && lock.refCount == old(lock.refCount) && lock.manager == old(lock.manager) && lock.command == old(lock.command) && lock.ackCount == old(lock.ackCount) && lock.timeouted == old(lock.timeouted) && lock.protocol == old(lock.protocol)
 //@   modifies AofChannel.*, AofLockQueue.next, AofLockQueue.windex, AofLock.*, Aof.freeLockQueueIndex, LockData.aofData, LockManagerData.isAof, LockQueue.*, Lock.data@lock, Lock.expried@lock, Lock.isAof@lock, Lock.longWaitIndex@lock, MillisecondWaitLockFreeQueue.freeIndex, PriorityMutex.*, E_LJPserver_Lock, E_Pserver_AofLock, E_Pserver_Lock, E_Pserver_MillisecondWaitLockQueue, E_int32
@@ -500,6 +502,7 @@ package server
 //@   at call ProcessLockResultCommand assert C15.reply.before: implies(calls(ProcessLockData) >= 1, arg5 == ghost.valueBefore[ref(lockManager)])
 //@   inline
 //@   at call AddLock assert C10.wake.leader-only: self.status == STATE_LEADER
+//@   at call AddExpried assert C06.wake.unit: waitLock.command.ExpriedFlag&0x0400 == 0
 //@   at call AddLock assert C01.wake.key,C04.wake.key: waitLock.manager == lockManager && waitLock.locked == 0 && (admissible(lockManager, waitLock) || unlimitedClass(lockManager, waitLock))
 //@   at call ProcessLockData assert C11.wake.recover: arg3 == !waitLock.timeouted
 //@   at call PriorityMutex.Unlock assert C03.wake.tombstone: waitLock.timeouted || waitLock.ackCount != 0xff
@@ -612,7 +615,7 @@ package server
 //@   at call LongWaitLockQueue.Pop after assume implies(callresult != nil, wheelEntry(self, callresult))
 //@   at call PriorityMutex.HighPriorityLock after assume clockSane(self)
 //@   at call LockQueue.Push assert C05.neverearly: !lock.timeouted && implies(calls(LongWaitLockQueue.Len) == 0, lock.timeoutTime <= now)
-//@   at call AddTimeOut assert C05.recheck: !lock.timeouted && lock.timeoutTime > now
+//@   at call AddTimeOut assert C05.recheck,C03.recheck: !lock.timeouted && lock.timeoutTime > now
 //@   loop#1 invariant clockSane(self) && (lock == nil || (wheelEntry(self, lock)))
 //@   loop#2 invariant clockSane(self)
 //@   loop#3 invariant lock == nil || wheelEntry(self, lock)
@@ -624,7 +627,7 @@ package server
 //@   at call LongWaitLockQueue.Pop after assume implies(callresult != nil, wheelEntry(self, callresult) && implies(!callresult.expried, callresult.command != nil))
 //@   at call PriorityMutex.HighPriorityLock after assume clockSane(self)
 //@   at call LockQueue.Push assert C06.neverearly: !lock.expried && implies(calls(LongWaitLockQueue.Len) == 0, lock.expriedTime <= now)
-//@   at call AddExpried assert C06.recheck: !lock.expried && lock.expriedTime > now
+//@   at call AddExpried assert C06.recheck,C03.recheck: !lock.expried && lock.expriedTime > now
 //@   loop#1 invariant clockSane(self) && (lock == nil || (wheelEntry(self, lock) && implies(!lock.expried, lock.command != nil)))
 //@   loop#2 invariant clockSane(self)
 //@   loop#3 invariant lock == nil || wheelEntry(self, lock)
